@@ -24,9 +24,10 @@ ASSUMPTIONS = [
     "vf/interp.py gives break/continue the innermost-loop semantics of the statement",
 ]
 
-CONSTRUCTS = ["block", "if", "ifelse-then", "ifelse-else", "for", "while", "do"]
-LOOPS = {"for", "while", "do"}
-SIBLINGS = ["none", "loop-before", "loop-after", "loop-in-other-function", "return-before", "if-before"]
+CONSTRUCTS = ["block", "if", "ifelse-then", "ifelse-else", "for", "while", "do", "for-nocond"]
+LOOPS = {"for", "while", "do", "for-nocond"}
+SIBLINGS = ["none", "loop-before", "loop-after", "loop-in-other-function", "return-before", "if-before",
+            "clean-function-after"]
 
 
 def lit(v):
@@ -83,6 +84,12 @@ class Builder:
             i = self.fresh("i")
             return M.For(M.Decl(INT, i, lit(0)), M.Bin("<", M.Var(i, INT), lit(2)),
                          M.Affix("++", M.Var(i, INT), True), body)
+        if construct == "for-nocond":
+            # `for (int i = 0; ; ++i)`: no condition, left through its own break
+            i = self.fresh("i")
+            guard = M.If(M.Bin(">=", M.Var(i, INT), lit(2)), M.Block([M.Break()]))
+            stmts = [guard] + (body.stmts if isinstance(body, M.Block) else [body])
+            return M.For(M.Decl(INT, i, lit(0)), None, M.Affix("++", M.Var(i, INT), True), M.Block(stmts))
         if construct == "while":
             w = self.fresh("w")
             dec = M.ExprStmt(M.Affix("--", M.Var(w, INT), False))
@@ -113,7 +120,7 @@ def path_program(path, flow, sibling, bare):
         inner = [M.Return(M.Var("p", INT)), fl]
     elif sibling == "if-before":
         inner = [M.If(M.Bin("==", M.Var("p", INT), lit(7)), M.Block([M.Return(lit(0))])), fl]
-    use_bare = bare and sibling in ("none", "loop-in-other-function") and path and path[-1] not in ("block", "do")
+    use_bare = bare and sibling in ("none", "loop-in-other-function") and path and path[-1] not in ("block", "do", "for-nocond")
     stmt_list = inner
     for k, c in enumerate(reversed(path)):
         stmt_list = [b.wrap(c, stmt_list, bare=(use_bare and k == 0))]
@@ -127,6 +134,13 @@ def path_program(path, flow, sibling, bare):
                   M.Block([inc(c)])), M.Return(M.Var("q", INT))]), False)
         funcs.append(h)
     funcs.append(M.Func("f", [(INT, "p")], INT, body, True))
+    if sibling == "clean-function-after":
+        # the function holding the statement is not the last one of the module
+        c = b.counter("gz")
+        funcs.append(M.Func("z", [(INT, "q")], INT, M.Block([
+            M.For(M.Decl(INT, "y", lit(0)), M.Bin("<", M.Var("y", INT), lit(2)), M.Affix("++", M.Var("y", INT), True),
+                  M.Block([inc(c), M.If(M.Bin(">", M.Var("y", INT), lit(5)), M.Block([M.Break()]))])),
+            M.Return(M.Var("q", INT))]), True))
     return M.Program([], b.globals, funcs), use_bare
 
 
@@ -258,7 +272,7 @@ def run(R):
                 for flow in ("break", "continue"):
                     for sib in SIBLINGS:
                         for bare in (False, True):
-                            if bare and (not path or path[-1] in ("block", "do") or sib not in ("none", "loop-in-other-function")):
+                            if bare and (not path or path[-1] in ("block", "do", "for-nocond") or sib not in ("none", "loop-in-other-function")):
                                 continue
                             out.append((path, flow, sib, bare))
         return out
